@@ -216,5 +216,67 @@ def check(run, ctx):
         else:
             why = norm(wk["early"][0]) if wk["early"] else (norm(wk["loop"].test) if not wk["to_root"] else "conditional step")
             run.finding(M10, f"{mod}.{fn}", f"walk-cut:{why}", f"{fn}: the ancestor walk can stop before the root (`{why}`): a literal nested in a block, closure or call inside the exempt item is reported although the item is exempt", f"{f.module.rel}:{(wk['early'][0] if wk['early'] else wk['loop']).lineno}")
+    M11 = run.rule("M11", "the UPPER_CASE-name predicates of the Python and TypeScript exemptions are siblings: both accept a constant name that starts with underscores (`_TIMEOUT_SECONDS`)", floor=2,
+                   decides="a private UPPER_CASE constant definition is exempt in both languages")
+    for mod, fn in (("context_analyzer", "_is_constant_name"), ("typescript_analyzer", "_is_uppercase_constant")):
+        f = next((x for x in repo.funcs_in(f"{PKG}.{mod}.") if x.name == fn), None)
+        run.require(f is not None, f"{mod}.{fn} vanished")
+        verdict = _leading_underscore_ok(repo, f)
+        if verdict is True:
+            run.ok(M11, f"{mod}.{fn}", "decided by str.isupper() over the name / its letters: leading underscores are accepted")
+        elif verdict is None:
+            run.undecided(M11, f"{mod}.{fn}", "predicate form not recognised")
+        else:
+            run.finding(M11, f"{mod}.{fn}", f"rejects-leading-underscore:{verdict}", f"{fn} decides with the pattern {verdict!r}, whose first character must be an upper-case letter: `_TIMEOUT_SECONDS = 3600` is no longer an exempt constant definition here while the sibling predicate of the other language still accepts it", f.loc)
     run.extra["call_resolution"] = f"{cg.n_resolved}/{cg.n_calls}"
     return __doc__
+
+
+def _leading_underscore_ok(repo, f):
+    """True: accepts names with leading '_' (isupper-based, or a regex whose first position admits '_');
+    a pattern string: a regex that cannot start with '_'; None: unknown form."""
+    import re._parser as sre
+
+    pats = []
+    for n in ast.walk(f.node):
+        if isinstance(n, ast.Call) and isinstance(n.func, ast.Attribute) and n.func.attr in ("match", "fullmatch", "search"):
+            src = n.func.value
+            if isinstance(src, ast.Name) and src.id == "re" and n.args:
+                pats.append(repo.fold(f.module, n.args[0]))
+            else:
+                # module-level compiled pattern: NAME = re.compile("...")
+                for st in ast.parse(f.module.src).body:
+                    if isinstance(st, ast.Assign) and isinstance(src, ast.Name) and any(isinstance(t, ast.Name) and t.id == src.id for t in st.targets) and isinstance(st.value, ast.Call) and call_name(st.value) == "compile" and st.value.args:
+                        pats.append(repo.fold(f.module, st.value.args[0]))
+    if pats:
+        for p in pats:
+            if not isinstance(p, str):
+                return None
+            try:
+                items = list(sre.parse(p))
+            except Exception:  # noqa: BLE001
+                return None
+            items = [it for it in items if str(it[0]) != "AT"]
+            if not items:
+                return None
+            op, av = items[0]
+            first_ok = None
+            if str(op) == "IN":
+                first_ok = any((str(k) == "LITERAL" and v == ord("_")) or (str(k) == "RANGE" and v[0] <= ord("_") <= v[1]) or str(k) == "CATEGORY" and "WORD" in str(v) for k, v in av)
+            elif str(op) == "LITERAL":
+                first_ok = av == ord("_")
+            elif str(op) in ("MAX_REPEAT", "MIN_REPEAT"):
+                lo, _hi, sub = av
+                inner = list(sub)
+                if inner and str(inner[0][0]) == "LITERAL" and inner[0][1] == ord("_"):
+                    first_ok = True
+                elif inner and str(inner[0][0]) == "IN":
+                    first_ok = any((str(k) == "LITERAL" and v == ord("_")) or (str(k) == "RANGE" and v[0] <= ord("_") <= v[1]) for k, v in inner[0][1])
+            if first_ok is None:
+                return None
+            if not first_ok:
+                return p
+        return True
+    if any(isinstance(n, ast.Call) and call_name(n) == "isupper" for n in ast.walk(f.node)):
+        return True
+    return None
